@@ -337,6 +337,8 @@ def _c04_specials():
                     _merge(allc, {"detect_minimal_iri": True, "examples_mode": "all"})):
             for as_file in (False, True):
                 for text in ("", "\n"):
+                    if text and fmt == "tsv_spo":
+                        continue       # a TSV file holding one blank line crashes the unchanged tree (pre-existing, reported): excluded
                     inp_e = {"format": fmt, "text": text}
                     if as_file:
                         inp_e["as_file"] = True
@@ -1607,6 +1609,9 @@ def gen_C15(tier, rng):
                 {"kind": "shapemap", "items": [{"sel": {"form": "focus-type", "cls": rng.choice(classes)}, "label": U.ALT_SHAPES_NS + "L1"}]},
                 {"kind": "shapemap", "items": [{"sel": node_sel, "label": U.ALT_SHAPES_NS + "L1"}]},
                 {"kind": "shapemap", "items": [{"sel": {"form": "sparql-type", "cls": rng.choice(classes)}, "label": U.ALT_SHAPES_NS + "L1"}]}]
+        # {_ p FOCUS} also selects literal objects and sheXer then queries `<literal> ?p ?o`: a blank inside the literal makes that query
+        # unparsable (pre-existing, reported) -- such properties are not used in selectors
+        props = [p for p in props if not any(M.is_literal(o) and " " in o.lex for (s_, p_, o) in T if p_ == p)]
         if props:
             sels.append({"kind": "shapemap", "items": [{"sel": {"form": "focus-subj", "p": rng.choice(props)}, "label": U.ALT_SHAPES_NS + "L1"}]})
             sels.append({"kind": "shapemap", "items": [{"sel": {"form": "focus-obj", "p": rng.choice(props)}, "label": U.ALT_SHAPES_NS + "L1"},
